@@ -620,6 +620,14 @@ def _icanon(v, depth=0):
 
 
 def walk_introspect(f):
+    try:
+        return _walk_introspect(f)
+    except Exception as e:  # noqa
+        # the entity tree cannot even be listed (e.g. debris without an entity id in a container)
+        return {"__unwalkable__": Raises(e)}
+
+
+def _walk_introspect(f):
     out = {}
     for path, ent in iter_real_entities(f):
         rec = {"__class__": type(ent).__name__}
@@ -639,6 +647,13 @@ def walk_introspect(f):
 
 
 def ts_walk(f):
+    try:
+        return _ts_walk(f)
+    except Exception as e:  # noqa
+        return {"__unwalkable__": ("?", Raises(e), None)}
+
+
+def _ts_walk(f):
     out = {}
     for path, ent in iter_real_entities(f):
         if not hasattr(type(ent), "created_at"):
